@@ -176,8 +176,151 @@ def run(check):
                             case={"source": render(it)}, impl=got.get(i), model=render(apply_model(it, ans)),
                             failing_input=failing, broken=None if failing else "correspondence annotation macro (theorems TsV.C19.*)")
             break
-    check.assumptions += ["rustc and derive macros are functions of the token stream they receive: syntactic identity of the expansion with the stripped twin implies identical compilation and serialisation behaviour (trusted, not proved)",
+    twin_part(check)
+    check.assumptions += ["rustc and derive macros are functions of the token stream they receive: syntactic identity of the expansion with the stripped twin implies identical compilation and serialisation behaviour for items written directly in source (trusted, not proved); for macro_rules!-generated items the text of the token stream is not everything (hygiene of `$crate`, spans, the origin of None-delimited fragment groups): those are not modelled and are covered only by the twin programs compiled and run by this check (nine fragment/hygiene scenarios per round, helpers and arguments randomised)",
                           "token streams are compared modulo white-space"]
+
+
+# ----------------------------------------------------------------------------- twin programs through macro_rules!
+# Items a user's (exported or local) macro_rules! macro generates: the tokens reach #[typeshare] with the macro's
+# hygiene (`$crate`), with None-delimited fragment groups ($ty, $expr, $vis, $meta) and with macro-site spans.  The text
+# comparison above cannot see any of that, so these programs are compiled twice and run.
+TWIN_HELPERS = ["#[typeshare(skip)]", '#[typeshare(serialized_as = "String")]', "#[typeshare(typescript(readonly))]", ""]
+
+TWIN_SCENARIOS = [
+    # (name, macro parameters, body with @TS@ / @H@ markers, invocation arguments, probe expressions over module M)
+    ("dollar-crate-struct", "($name:ident)",
+     "@TS@ #[derive(serde::Serialize, Default)] pub struct $name { @H@ pub inner: $crate::Inner, @H@ pub deep: $crate::deep::Inner, pub n: u8 }",
+     "S", ["serde_json::to_string(&M::S::default()).unwrap()", "std::mem::size_of::<M::S>().to_string()"]),
+    ("dollar-crate-enum", "($name:ident)",
+     '@TS@ #[derive(serde::Serialize, Default)] #[serde(tag = "t", content = "c")] pub enum $name { #[default] @H@ A, @H@ B($crate::Inner), '
+     "C { @H@ x: $crate::deep::Inner, y: Option<$crate::Inner> } }",
+     "S", ["serde_json::to_string(&[M::S::default(), M::S::B(Default::default()), M::S::C { x: Default::default(), y: None }]).unwrap()"]),
+    ("dollar-crate-union", "($name:ident)",
+     "@TS@ #[repr(C)] pub union $name { @H@ pub a: $crate::Inner, @H@ pub b: u32 }",
+     "S", ["std::mem::size_of::<M::S>().to_string()", "unsafe { M::S { b: 7 }.b }.to_string()"]),
+    ("dollar-crate-alias-const", "($name:ident)",
+     "@TS@ pub type $name = $crate::deep::Inner; @TS@ pub const LIMIT: $crate::Inner = $crate::Inner(9);",
+     "S", ["serde_json::to_string(&M::S::default()).unwrap()", "M::LIMIT.0.to_string()"]),
+    ("ty-vis-meta-fragments", "($(#[$m:meta])* $vis:vis $name:ident : $ty:ty)",
+     "@TS@ $(#[$m])* #[derive(Default)] pub struct $name { @H@ $vis first_field: $ty, @H@ pub second_field: Vec<$ty> }",
+     '#[derive(serde::Serialize)] #[serde(rename_all = "UPPERCASE")] pub(crate) S : Option<u8>',
+     ["serde_json::to_string(&M::S::default()).unwrap()", "std::mem::size_of::<M::S>().to_string()"]),
+    ("expr-fragment-array", "($name:ident, $n:expr)",
+     "@TS@ #[derive(serde::Serialize, Default)] pub struct $name { @H@ pub bytes: [u8; $n], pub tail: u8 }",
+     "S, 1 + 2", ["serde_json::to_string(&M::S::default()).unwrap()", "std::mem::size_of::<M::S>().to_string()"]),
+    ("expr-fragment-precedence", "($name:ident, $n:expr)",
+     "@TS@ #[derive(serde::Serialize, Default)] pub struct $name { @H@ pub bytes: [u8; $n * 2], pub tail: u8 }",
+     "S, 1 + 2", ["serde_json::to_string(&M::S::default()).unwrap()", "std::mem::size_of::<M::S>().to_string()"]),
+    ("literal-discriminant", "($name:ident, $d:literal)",
+     "@TS@ #[derive(serde::Serialize, Clone, Copy)] #[repr(u8)] pub enum $name { @H@ A = $d, @H@ B }",
+     "S, 41", ["(M::S::B as u8).to_string()", "serde_json::to_string(&M::S::A).unwrap()"]),
+    ("lifetime-generics", "($name:ident, $lt:lifetime, $g:ident)",
+     "@TS@ #[derive(serde::Serialize, Default)] pub struct $name<$lt, $g: Default> where $g: Clone { @H@ pub s: &$lt str, @H@ pub t: $g, "
+     "pub i: $crate::Inner }",
+     "S, 'x, G", ["serde_json::to_string(&M::S::<'static, u16>::default()).unwrap()"]),
+    ("nested-module-macro", "($name:ident)",
+     "@TS@ #[derive(serde::Serialize, Default)] pub struct $name(@H@ pub $crate::deep::Inner, @H@ pub $crate::Inner);",
+     "S", ["serde_json::to_string(&M::S::default()).unwrap()"]),
+]
+
+TWIN_LIB = """#![allow(unused)]
+#[derive(serde::Serialize, Default, Debug, Clone, Copy, PartialEq)]
+pub struct Inner(pub u8);
+pub mod deep {
+    #[derive(serde::Serialize, Default, Debug, Clone, Copy, PartialEq)]
+    pub struct Inner { pub v: u8 }
+}
+"""
+
+
+def twin_part(check):
+    rng = check.rng
+    rounds = 4 if check.thorough else 1
+    for rnd in range(rounds):
+        lib, main_mods, probes, feats = [TWIN_LIB], [], [], []
+        chosen = []
+        for k, (sname, params, body, inv, exprs) in enumerate(TWIN_SCENARIOS):
+            exported = rng.random() < 0.5       # macro exported by the library crate / local to the binary crate
+            ts = "#[typeshare::typeshare%s]" % rng.choice(ARGS)
+            annotated = body.replace("@TS@", ts)
+            while "@H@" in annotated:
+                annotated = annotated.replace("@H@", rng.choice(TWIN_HELPERS), 1)
+            plain = body.replace("@TS@", "").replace("@H@", "")
+            chosen.append({"scenario": sname, "exported": exported, "annotated_macro_body": annotated, "invocation": inv})
+            for flavour, text in (("plain", plain), ("annot", annotated)):
+                mac = "macro_rules! gen_%d_%s { (%s) => { %s }; }\n" % (k, flavour, params[1:-1], text)
+                if exported:
+                    lib.append("#[macro_export]\n" + mac)
+                    call = "c19twin::gen_%d_%s!(%s);" % (k, flavour, inv)
+                else:
+                    # a binary-local macro: `$crate` is the binary crate, which re-exports the library's items
+                    main_mods.append(mac)
+                    call = "gen_%d_%s!(%s);" % (k, flavour, inv)
+                gate = '#[cfg(feature = "annot_%d")] ' % k if flavour == "annot" else ""
+                main_mods.append("%spub mod %s_%d { use super::*; %s }\n" % (gate, flavour, k, call))
+            for j, e in enumerate(exprs):
+                probes.append('    println!("%d.%d plain {}", %s);\n' % (k, j, e.replace("M::", "plain_%d::" % k)))
+                probes.append('    #[cfg(feature = "annot_%d")] println!("%d.%d annot {}", %s);\n' % (k, k, j, e.replace("M::", "annot_%d::" % k)))
+            feats.append("annot_%d" % k)
+        main = ("#![allow(unused)]\npub use c19twin::{deep, Inner};\n" + "".join(main_mods) + "fn main() {\n" + "".join(probes) + "}\n")
+        with Scratch() as sc:
+            sc.write("crate/src/lib.rs", "".join(lib))
+            sc.write("crate/src/main.rs", main)
+            sc.write("crate/Cargo.toml", '[package]\nname = "c19twin"\nversion = "0.1.0"\nedition = "2021"\n\n[workspace]\n\n[features]\n'
+                     + "".join("%s = []\n" % f for f in feats) + "annot = [%s]\n" % ", ".join('"%s"' % f for f in feats)
+                     + '\n[dependencies]\ntypeshare = { path = "%s/lib" }\nserde = { version = "1", features = ["derive"] }\nserde_json = "1"\n' % REPO)
+            shutil.copyfile(os.path.join(REPO, "Cargo.lock"), sc.path("crate/Cargo.lock"))
+            lock = open(os.path.join(BUILD, "cargo-c19.lock"), "w")
+            fcntl.flock(lock, fcntl.LOCK_EX)
+
+            def build_run(features):
+                p = subprocess.run(["cargo", "run", "-q", "--offline", "--target-dir", os.path.join(BUILD, "target-c19")] +
+                                   (["--features", ",".join(features)] if features else []), cwd=sc.path("crate"), env=ENV,
+                                   stdout=subprocess.PIPE, stderr=subprocess.PIPE, text=True)
+                return p
+            try:
+                p0 = build_run([])
+                if p0.returncode != 0:
+                    raise InfraError("C19 twin crate: the un-annotated programs do not build:\n" + p0.stderr[-3000:])
+                p1 = build_run(["annot"])
+                outs = {}
+                if p1.returncode != 0:
+                    # which scenario stops compiling?
+                    for k, f in enumerate(feats):
+                        pk = build_run([f])
+                        check.count("twin-bisect")
+                        if pk.returncode != 0:
+                            check.saw(("twin", rnd, k), nontrivial=True)
+                            errs = [l for l in pk.stderr.split("\n") if l.startswith("error")][:3]
+                            check.violation("macro_rules!-generated item (%s, %s macro): the program with #[typeshare] does not compile "
+                                            "although its un-annotated twin does: %s" % (chosen[k]["scenario"], "exported" if chosen[k]["exported"]
+                                                                                          else "local", "; ".join(errs)),
+                                            case=chosen[k], impl={"rustc": pk.stderr[-2500:]}, failing_input=True)
+                            return
+                    raise InfraError("C19 twin crate: annotated build fails but no single scenario does:\n" + p1.stderr[-3000:])
+                lines = {}
+                for l in p1.stdout.split("\n"):
+                    m = re.match(r"(\d+)\.(\d+) (plain|annot) (.*)$", l)
+                    if m:
+                        lines[(int(m.group(1)), int(m.group(2)), m.group(3))] = m.group(4)
+            finally:
+                lock.close()
+        for k, (sname, params, body, inv, exprs) in enumerate(TWIN_SCENARIOS):
+            check.saw(("twin", chosen[k]["annotated_macro_body"], chosen[k]["exported"]), nontrivial=True)
+            check.count("twin-" + sname)
+            for j in range(len(exprs)):
+                a, b = lines.get((k, j, "plain")), lines.get((k, j, "annot"))
+                if a is None or b is None:
+                    raise InfraError("C19 twin crate: missing probe output %d.%d" % (k, j))
+                if a != b and sname == "expr-fragment-precedence" and check.known(
+                        "macro-expr-fragment-regrouped", "`[u8; $n * 2]` with $n = `1 + 2`: annotated %s, twin %s" % (b, a)):
+                    continue
+                if a != b:
+                    check.violation("macro_rules!-generated item (%s): the annotated type behaves differently from its un-annotated twin: "
+                                    "`%s` gives %s, the twin %s" % (sname, exprs[j], b, a), case=chosen[k], impl={"annotated": b, "twin": a},
+                                    failing_input=True)
+                    return
 
 
 def all_attrs(it):
